@@ -104,7 +104,21 @@ class CtxSession:
         self.pair.stop()
 
 
+RACES_QUICK = [('L_setloc_a', 'L_setloc_b'), ('L_setloc_a', 'W_ctx_newloc')]
+RACES_THOROUGH = RACES_QUICK + [('L_setloc_a', 'W_ctx_newloc', 'L_setloc_b'), ('L_setloc_a', 'W_ctx', 'W_ctx_newloc')]
+
+
+def concurrent_changes(run):
+    """Location changes racing with each other and with a context transaction of the application: every interleaving
+    the locks admit (specs/Threads.tla), executed on real threads; association invariants judged on every MdibVersion."""
+    from verif.checks.c07 import run_scenarios
+    run_scenarios(run, run.pick(RACES_QUICK, RACES_THOROUGH), run.pick(40, 800),
+                  {'ctx_at_most_one_associated', 'ctx_binding_marks', 'one_version_per_commit', 'request_answered'},
+                  prefix='c10')
+
+
 def check(run, replay_path=None):
+    concurrent_changes(run)
     res = run_tlc('ContextMC', 'Context_mc.cfg', coverage=True, timeout=1800)
     run.add_tlc(res, ['SetLocation', 'SetContextState'])
     num = run.pick(150, 4000)
